@@ -96,6 +96,7 @@ def run(ctx, compare=True, n_pd=None, n_ilp=None):
                 ctx.nontrivial.add(case.key() + "ilp")
             ctx.sample(f"maxw-ilp {json.dumps(ruleprops.cfg_json(cfg))} on {case.enc_common()} -> {ans}", cap=8)
         run_nofree(ctx, box, ctx.scale(40, 300) if n_ilp else 0)  # D46: nothing left to decide
+        run_oddgrid(ctx, box, ctx.scale(300, 3000), ctx.scale(120, 1000) if n_ilp else 0)  # round 6
         # round 4 (drawn last: the seeds of the streams above are unchanged)
         run_satprofile(ctx, box, m_hi, ctx.scale(700, 6000), ctx.scale(90, 800) if n_ilp else 0)
         run_negscores(ctx, box, m_hi, ctx.scale(900, 8000), ctx.scale(110, 900) if n_ilp else 0, compare)  # D45 (drawn after everything above)
@@ -126,6 +127,57 @@ def judge_ilp(case, cfg, ans):
     if got != opt_sets:
         return [violation("irresolute ILP outcomes are not exactly the set of optima", case, cfg, impl=got, expected=opt_sets, sig=sig)], len(arg)
     return [], len(arg)
+
+
+def run_oddgrid(ctx, box, n_pd, n_ilp):
+    """the initial allocation holds a project whose cost is on ANOTHER grid than everything else (halves or thirds among integers,
+    integers among halves): what is left for the other projects, budget - cost(initial allocation), is then not a whole number of
+    their common unit; both algorithms, resolute and irresolute (ILP)"""
+    import random
+
+    rng = random.Random(ctx.rng.getrandbits(48))
+
+    def gen():
+        case = core.gen_tight_election(rng, btypes=("app", "app", "card"), m=(3, 6), n=(2, 5))
+        names = [nm for nm, _ in case.projects]
+        odd = rng.choice(names)
+        den = rng.choice([2, 2, 3, 4])
+        projects = []
+        for nm, c in case.projects:
+            c = F(int(c) if c >= 1 else 1)
+            if nm == odd:
+                c = c + F(rng.randint(1, den - 1), den) - rng.choice([0, 1]) * (1 if c > 1 else 0)
+            projects.append((nm, c))
+        tot = sum((c for _, c in projects), F(0))
+        odd_cost = dict(projects)[odd]
+        budget = F(rng.randint(int(odd_cost) + 1, max(int(odd_cost) + 2, int(tot))))
+        case = Case(projects, budget, case.btype, case.ballots, case.seed)
+        cfg = rulegen.gen_rule_cfg(rng, case, rules=("maxw",), allow_refuse=False)
+        cfg["init"] = [odd]
+        return case, cfg
+
+    def pd_pairs():
+        for _ in range(n_pd):
+            ctx.count("stream", "initial allocation on another cost grid (primal/dual)")
+            yield gen()
+
+    ruleprops.run_items(ctx, pd_pairs(), predicate_pd, nontrivial, compare=True, keep=False)
+    for k in range(n_ilp):
+        if ctx.budget_s is not None and ctx.elapsed() > ctx.budget_s:
+            break
+        case, cfg = gen()
+        cfg = dict(cfg, algo="ilp", res=bool(k % 2))
+        if not cfg["res"] and len(oracle.welfare_opt(case, profit_for(case, cfg), cfg["init"])[1]) > C04_ilp.MAX_OPTIMA:
+            cfg["res"] = True
+        ans = box.ask({"case": case.to_json(), "cfg": ruleprops.cfg_json(cfg)})
+        ctx.evaluations += 1
+        ctx.count("stream", "initial allocation on another cost grid (ILP)")
+        if ans.startswith("solver-fault"):
+            ctx.solver_faults += 1
+            continue
+        vs, n_opt = judge_ilp(case, cfg, ans)
+        ctx.violations.extend(vs)
+        ctx.nontrivial.add(case.key() + "ilp-oddgrid" + str(cfg["res"]))
 
 
 def run_nofree(ctx, box, n):
@@ -344,7 +396,7 @@ def run_negscores(ctx, box, m_hi, n_pd, n_ilp, compare=True):
 
 
 def search(ctx, disagreements):
-    run(ctx, compare=False, n_pd=12000, n_ilp=0)
+    run(ctx, compare=False, n_pd=12000, n_ilp=600)  # the ILP streams too: a program that differs from the model is searched on the ILP path
 
 
 def replay(payload):
